@@ -227,28 +227,36 @@ def run(ck: Check) -> int:
             lf = [mod.NEGATE, mod.NEGATEALL, mod.MINUSNEGATE, mod.SPLIT, mod.DOTMATCH]
             if mod is G:
                 lf += [G.NODIR, G.GLOBSTAR]
-            for r in range(len(lf) + 1):
-                for sub in _it.combinations(lf, r):
-                    fl = mod.FORCEUNIX
-                    for b in sub:
-                        fl |= b
-                    for plist, excl in shapes:
-                        sr.evaluations += 1
-                        try:
-                            pos, neg = mod.translate(plist, flags=fl, exclude=excl)
-                            cp = [re.compile(x) for x in pos]
-                            cn = [re.compile(x) for x in neg]
-                            mt = mod.compile(plist, flags=fl, exclude=excl)
-                        except Exception as e:  # noqa: BLE001
-                            sr.histogram['grid-exc:' + type(e).__name__] = sr.histogram.get('grid-exc:' + type(e).__name__, 0) + 1
-                            continue
-                        for x in gnames:
-                            exp = any(c.fullmatch(x) for c in cp) and not any(c.fullmatch(x) for c in cn)
-                            if bool(mt.match(x)) != exp:
-                                ck.report(Failing(f'{mod.__name__}: match({x!r}) = {bool(mt.match(x))} but the translate() regexes say {exp}',
-                                                  {'api': mod.__name__, 'patterns': plist, 'exclude': excl, 'flags': fl, 'name': x}, exp, bool(mt.match(x))), None)
-                                sr.histogram['grid-mismatch'] = sr.histogram.get('grid-mismatch', 0) + 1
-                                break
+            # ... under both platform rules and for both string types (added after seeded change C08g: translate() took the NODIR exclusion
+            # of the bytes / Windows slot from the POSIX table, so `b'dir\\'` was accepted by the translated pair and rejected by the matcher);
+            # the full subset grid for (Unix, str), subsets of at most two flags for the other three combinations
+            wnames = gnames + ['a\\', 'a\\b\\', 'sub\\', 'x\\y', 'a\\b', 'dir\\']
+            for plat, isb in ((mod.FORCEUNIX, False), (mod.FORCEWIN, False), (mod.FORCEUNIX, True), (mod.FORCEWIN, True)):
+                cv = (lambda z: z.encode('latin-1')) if isb else (lambda z: z)
+                for r in range(len(lf) + 1 if (plat == mod.FORCEUNIX and not isb) else 3):
+                    for sub in _it.combinations(lf, r):
+                        fl = plat
+                        for b in sub:
+                            fl |= b
+                        for plist, excl in shapes:
+                            sr.evaluations += 1
+                            bl = [cv(q) for q in plist]
+                            be = None if excl is None else [cv(q) for q in excl]
+                            try:
+                                pos, neg = mod.translate(bl, flags=fl, exclude=be)
+                                cp = [re.compile(x) for x in pos]
+                                cn = [re.compile(x) for x in neg]
+                                mt = mod.compile(bl, flags=fl, exclude=be)
+                            except Exception as e:  # noqa: BLE001
+                                sr.histogram['grid-exc:' + type(e).__name__] = sr.histogram.get('grid-exc:' + type(e).__name__, 0) + 1
+                                continue
+                            for x in (wnames if plat == mod.FORCEWIN else gnames):
+                                exp = any(c.fullmatch(cv(x)) for c in cp) and not any(c.fullmatch(cv(x)) for c in cn)
+                                if bool(mt.match(cv(x))) != exp:
+                                    ck.report(Failing(f'{mod.__name__}: match({cv(x)!r}) = {bool(mt.match(cv(x)))} but the translate() regexes say {exp}',
+                                                      {'api': mod.__name__, 'patterns': plist, 'exclude': excl, 'flags': fl, 'name': x, 'bytes': isb}, exp, bool(mt.match(cv(x)))), None)
+                                    sr.histogram['grid-mismatch'] = sr.histogram.get('grid-mismatch', 0) + 1
+                                    break
         # ---- capture semantics: a top-level extended group that is not a negation captures the text the
         # whole group consumed — it always takes part in a successful match (the empty string when it matched empty)
         for mod in (F, G):
